@@ -135,6 +135,33 @@ def run(ctx, B):
                     ctx.violation("%s|%s|Z=%d|repeat-differs" % (cfg, F.fn, int(Zc[j])), "%s%r: value=%r err=%s when called once, value=%r err=%s as %s of two identical consecutive calls" % (
                         F.fn, tuple(a), float(rec["v0"][j]), bool(rec["flags"][j] & F_ERR), float(rr_["v0"][j]), bool(rr_["flags"][j] & F_ERR), "the first" if half == 0 else "the second"),
                         dict(cfg=cfg, calls=[dict(fn=F.fn, args=a), dict(fn=F.fn, args=a)]))
+            # negative arguments of EVERY magnitude (the smallest denormal, below half an ulp of 1, ordinary, huge) and +-huge ones: outside every table, so the call
+            # fails (a range test made after the argument was shifted or scaled loses the tiny ones)
+            negs = np.array([-5e-324, -2.3e-308, -1e-300, -1e-30, -1e-17, -5.5e-17, -1.2e-16, -1e-12, -1.0, -1e10, -1.7e308, 1.7e308])
+            zs_ = sorted(set(t[0] for t in tabs)); sh_ = sorted(set((t[0], t[1]) for t in tabs))
+            if F.shell:
+                Zn = np.repeat(np.array([z for z, s_ in sh_]), len(negs)); Sn = np.repeat(np.array([s_ for z, s_ in sh_]), len(negs)); An = np.tile(negs, len(sh_))
+                rn = X.call(F.fn, Zn, Sn, An)
+            else:
+                Zn = np.repeat(np.array(zs_), len(negs)); An = np.tile(negs, len(zs_)); Sn = None
+                rn = X.call(F.fn, Zn, An)
+            ctx.add(evaluations=len(rn))
+            for j in np.nonzero(((rn["flags"] & F_ERR) == 0) | (rn["v0"] != 0))[0][:10]:
+                a = [int(Zn[j])] + ([int(Sn[j])] if F.shell else []) + [float(An[j])]
+                ctx.violation("%s|%s|Z=%d|out-of-range-argument|%s" % (cfg, F.fn, int(Zn[j]), "tiny-negative" if -1e-12 < An[j] < 0 else "negative" if An[j] < 0 else "huge"),
+                              "%s%r returns %r (error: %s): the argument lies outside the tabulated range, the call must fail" % (F.fn, tuple(a), float(rn["v0"][j]), bool(rn["flags"][j] & F_ERR)),
+                              dict(cfg=cfg, calls=[dict(fn=F.fn, args=a, expect=dict(type="error"))]))
+            if fam == "KPP" and len(Zc):
+                # the Kissel partial cross sections once more in a MemorySanitizer build: the extension branch between edge and first knot has its own code path, and
+                # a result that derives from an uninitialised local there is nondeterministic in an optimised build (it may or may not differ from the spline)
+                XM = xrl.Xrl("msan", cfg, build=B)
+                st_ = max(1, len(Zc) // 400000)
+                rm = XM.call(F.fn, Zc[::st_], Sc[::st_], Ac[::st_]); XM.close()
+                ctx.add(evaluations=len(rm))
+                for j in np.nonzero((rm["flags"] & xrl.F_SAN) != 0)[0][:10]:
+                    jj = j * st_
+                    ctx.violation("%s|%s|Z=%d|sh=%d|uninitialised-value" % (cfg, F.fn, int(Zc[jj]), int(Sc[jj])), "%s(%d,%d,%r): MemorySanitizer: the result (or a branch on the way) derives from uninitialised memory" % (
+                        F.fn, int(Zc[jj]), int(Sc[jj]), float(Ac[jj])), dict(cfg=cfg, variant="msan", calls=[dict(fn=F.fn, args=[int(Zc[jj]), int(Sc[jj]), float(Ac[jj])])]))
             edges = None
             if fam == "KPP":
                 # public EdgeEnergy per (Z, shell) of the same build (0 + error when absent / shell >= 28)
